@@ -116,7 +116,8 @@ impl Check for Spending {
         let nsteps = if tier == Tier::Quick { 25 + rng.below(50) } else { 25 + rng.below(120) } as usize;
         let mut m = Model { now: cfg.start_ledger, ..Default::default() };
         let mut steps = vec![];
-        let period = 1 + if rng.chance(50) { rng.below(12) } else { rng.below(400) } as u32;
+        // every period: mostly short (windows that close during a run), sometimes so long that `entry + period` leaves u32
+        let period = if rng.chance(8) { *rng.pick(&[u32::MAX, u32::MAX - 1, 4_000_000_000, 2_147_483_648]) } else { 1 + if rng.chance(50) { rng.below(12) } else { rng.below(400) } as u32 };
         let limit: i128 = match rng.below(4) { 0 => 1 + rng.below(50) as i128, 1 => i128::MAX, _ => 100 + rng.below(10_000) as i128 };
         // capacity scenario (rare, expensive): fill the 1 000-entry history inside one window, let entries expire, go on
         let capacity_run = rng.below(if tier == Tier::Quick { 400 } else { 250 }) == 0;
@@ -151,7 +152,7 @@ impl Check for Spending {
                         // land on window edges of the oldest live entry: C-P == l  (evicted) / C-P == l-1 (kept)
                         let p = m.installed.map(|x| x.1).unwrap_or(1);
                         let n = match (m.live().first().cloned(), rng.below(10)) {
-                            (Some((l, _)), 0..=5) => (l + p + rng.below(2) as u32).saturating_sub(1).saturating_sub(m.now).max(if rng.chance(50) { 0 } else { 1 }),
+                            (Some((l, _)), 0..=5) if (l as u64 + p as u64) < 6_000_000 => (l + p + rng.below(2) as u32).saturating_sub(1).saturating_sub(m.now).max(if rng.chance(50) { 0 } else { 1 }),
                             (_, 6) => 0,
                             (_, 7) => 500 + rng.below(5000) as u32,
                             _ => 1 + rng.below(4) as u32,
